@@ -210,9 +210,11 @@ class Inliner:
 
     def candidate(self, fi: FuncInfo, call: ast.Call, stack: list[str]) -> Optional[FuncInfo]:
         tg, kind = self.prj.resolve_call(fi, call)
-        if kind not in ("direct", "self") or len(tg) != 1:
+        if kind not in ("direct", "self", "cha") or len(tg) != 1:
             return None
         t = tg[0]
+        if kind == "cha" and not (t.is_method() and len([a for a in call.args]) + len(call.keywords) == len(t.params()) - 1):
+            return None     # a method name that is unique in the project, on a receiver of unknown type
         if t.qual in self.base or t.qual in stack or t.name.startswith("__"):
             return None
         if t.module.name.split(".")[0] != "codelimit":
